@@ -185,7 +185,214 @@ func (fn *Func) GuardsAt(n ast.Node) *Formula {
 	if eg := fn.closureEntryGuards(); eg != nil {
 		parts = append(parts, eg)
 	}
-	return fn.expandHelperCalls(fn.expandBoolVars(fAnd(parts...), 2), 2)
+	return fn.expandHelperCalls(fn.expandOkFlags(fn.expandBoolVars(fAnd(parts...), 2), 1), 2)
+}
+
+// expandOkFlags: an atom that is the ok flag of `v, ok := search(args…)` (a function of the
+// module with a body, every return of which ends in the literal true or false) additionally
+// contributes what is known where the helper answers true (false for a negated flag): the
+// disjunction, over its `return …, true` (false) statements, of the guards there, with the
+// helper's parameters read as the arguments of the call. Only for calls whose arguments are built from variables that
+// are assigned at most once (the guards speak about the values at the time of the call).
+func (fn *Func) expandOkFlags(f *Formula, depth int) *Formula {
+	if f == nil || depth == 0 {
+		return f
+	}
+	if f.Op != 0 {
+		out := &Formula{Op: f.Op}
+		for _, s := range f.Sub {
+			out.Sub = append(out.Sub, fn.expandOkFlags(s, depth))
+		}
+		return out
+	}
+	a := f.Atom
+	if a == nil || a.E == nil || a.Expanded {
+		return f
+	}
+	wantName := "true"
+	if !a.Pol {
+		wantName = "false"
+	}
+	id, ok := ast.Unparen(a.E).(*ast.Ident)
+	if !ok {
+		return f
+	}
+	info := fn.Info()
+	o, ok := info.ObjectOf(id).(*types.Var)
+	if !ok || o.IsField() {
+		return f
+	}
+	root := rootFunc(fn)
+	as := root.Assignments(o)
+	if len(as) != 1 {
+		return f
+	}
+	st, ok := as[0].(*ast.AssignStmt)
+	if !ok || len(st.Rhs) != 1 || len(st.Lhs) < 2 || !isIdentObj(info, st.Lhs[len(st.Lhs)-1], o) {
+		return f
+	}
+	call, ok := ast.Unparen(st.Rhs[0]).(*ast.CallExpr)
+	if !ok {
+		return f
+	}
+	cf := calleeOf(info, call)
+	if cf == nil || cf.Pkg() == nil || !strings.HasPrefix(cf.Pkg().Path(), modPath) {
+		return f
+	}
+	t := fn.Prog.FuncOf[cf]
+	if t == nil || t.Body == nil || t.Decl == nil {
+		return f
+	}
+	sig := cf.Type().(*types.Signature)
+	if sig.Variadic() || sig.Params().Len() != len(call.Args) || sig.Results().Len() != len(st.Lhs) {
+		return f
+	}
+	if bt, isB := sig.Results().At(sig.Results().Len() - 1).Type().Underlying().(*types.Basic); !isB || bt.Kind() != types.Bool {
+		return f
+	}
+	// the arguments (and the receiver) speak about stable variables
+	stable := func(e ast.Expr) bool {
+		okS := true
+		ast.Inspect(e, func(n ast.Node) bool {
+			if vid, isId := n.(*ast.Ident); isId {
+				if v, isVar := info.ObjectOf(vid).(*types.Var); isVar && !v.IsField() && v.Pkg() == fn.Pkg.Types && v.Parent() != fn.Pkg.Types.Scope() {
+					k := len(root.Assignments(v))
+					if (root.isParam(v) && k > 0) || (!root.isParam(v) && k > 1) {
+						okS = false
+					}
+				}
+			}
+			return okS
+		})
+		return okS
+	}
+	for _, arg := range call.Args {
+		if !stable(arg) {
+			return f
+		}
+	}
+	var recvObj types.Object
+	var recvExpr ast.Expr
+	if t.Decl.Recv != nil {
+		sel, isSel := ast.Unparen(call.Fun).(*ast.SelectorExpr)
+		if !isSel || len(t.Decl.Recv.List) != 1 || len(t.Decl.Recv.List[0].Names) != 1 || !stable(sel.X) {
+			return f
+		}
+		recvObj = t.Info().ObjectOf(t.Decl.Recv.List[0].Names[0])
+		recvExpr = sel.X
+	}
+	tinfo := t.Info()
+	var alts []*Formula
+	bad := false
+	ast.Inspect(t.Body, func(n ast.Node) bool {
+		if _, isLit := n.(*ast.FuncLit); isLit {
+			return false
+		}
+		ret, isRet := n.(*ast.ReturnStmt)
+		if !isRet {
+			return true
+		}
+		if len(ret.Results) != sig.Results().Len() {
+			bad = true
+			return true
+		}
+		last, isId := ast.Unparen(ret.Results[len(ret.Results)-1]).(*ast.Ident)
+		if !isId || (last.Name != "true" && last.Name != "false") {
+			bad = true
+			return true
+		}
+		if last.Name != wantName {
+			return true
+		}
+		g := t.GuardsAt(ret)
+		var conv func(x *Formula) *Formula
+		conv = func(x *Formula) *Formula {
+			if x == nil {
+				return nil
+			}
+			if x.Op != 0 {
+				out := &Formula{Op: x.Op}
+				for _, sb := range x.Sub {
+					if c := conv(sb); c != nil {
+						out.Sub = append(out.Sub, c)
+					} else if x.Op == 2 {
+						return nil
+					}
+				}
+				if len(out.Sub) == 0 {
+					return nil
+				}
+				return out
+			}
+			if x.Atom == nil {
+				return nil
+			}
+			c := *x.Atom
+			c.Fact = nil
+			c.From = a.E
+			sub := func(e ast.Expr) ast.Expr {
+				if e == nil {
+					return nil
+				}
+				if recvObj != nil {
+					e = substExpr(e, recvObj, recvExpr, tinfo)
+				}
+				for i := 0; i < sig.Params().Len(); i++ {
+					e = substExpr(e, sig.Params().At(i), call.Args[i], tinfo)
+				}
+				return e
+			}
+			// atoms over the helper's own locals say nothing to the caller
+			mentionsLocal := func(e ast.Expr) bool {
+				found := false
+				ast.Inspect(e, func(z ast.Node) bool {
+					if vid, isId := z.(*ast.Ident); isId {
+						if v, isVar := tinfo.ObjectOf(vid).(*types.Var); isVar && !v.IsField() && v.Parent() != t.Pkg.Types.Scope() && !t.isParam(v) && v != recvObj {
+							if v.Pos() >= t.Body.Pos() && v.Pos() <= t.Body.End() {
+								found = true
+							}
+						}
+					}
+					return !found
+				})
+				return found
+			}
+			if c.E != nil {
+				e2 := t.InlineLocals(c.E, 3)
+				if mentionsLocal(e2) {
+					return nil
+				}
+				c.E = sub(e2)
+			}
+			if c.TypeX != nil {
+				e2 := t.InlineLocals(c.TypeX, 3)
+				if mentionsLocal(e2) {
+					return nil
+				}
+				c.TypeX = sub(e2)
+			}
+			return &Formula{Atom: &c}
+		}
+		if c := conv(g); c != nil {
+			alts = append(alts, c)
+		} else {
+			alts = append(alts, nil)
+		}
+		return true
+	})
+	if bad || len(alts) == 0 {
+		return f
+	}
+	for _, al := range alts {
+		if al == nil {
+			return f // one way of answering true carries no knowledge
+		}
+	}
+	mark := &Formula{Atom: &Atom{E: a.E, Pol: a.Pol, Fact: a.Fact, Expanded: true, From: a.From}}
+	if len(alts) == 1 {
+		return fAnd(mark, alts[0])
+	}
+	return fAnd(mark, fOr(alts...))
 }
 
 func rootFunc(fn *Func) *Func {
